@@ -300,3 +300,15 @@ func J(v interface{}) string {
 	}
 	return string(b)
 }
+
+// DistinctKeys returns the sorted members of a distinct-set.
+func (r *Run) DistinctKeys(set string) []string {
+	r.mu.Lock()
+	defer r.mu.Unlock()
+	var k []string
+	for x := range r.distinct[set] {
+		k = append(k, x)
+	}
+	sort.Strings(k)
+	return k
+}
